@@ -1,4 +1,4 @@
-(* Model/C19Series.v — hdl21/generators.py: Series, MosStack, Wrapper (as repaired by fixes/C19-1..4),
+(* Model/C19Series.v — hdl21/generators.py: Series, MosStack, Wrapper (as repaired by fixes/C19-1..4 and fixes/C19W-1),
    branch by branch, followed by what elaboration makes of the generated module
    (Model/Arrays.v: the connection element k of the instance array receives; Model/Resolve.v: its bits).
 
@@ -48,22 +48,35 @@ Definition series_port (u : unit) (c : name) : result Z :=
   match assoc c (u_sigs u) with Some w => Ok w | None => Error EBadKind end.
 
 (* unit_conns: parallel ports by name; then [first] = Concat(first, i); then [second] = Concat(i, second)
-   (the later assignment wins when both name one port) *)
-Definition series_conn (iid : N) (n : Z) (a b : name) (e : N * (name * Z)) : name * sx :=
+   (the later assignment wins when both name one port); iw = the width of the internal bus i *)
+Definition series_conn (iid : N) (iw : Z) (a b : name) (e : N * (name * Z)) : name * sx :=
   let '(id, (p, w)) := e in
-  (p, if String.eqb p b then XConcat [XSig iid (n - 1); XSig id w]
-      else if String.eqb p a then XConcat [XSig id w; XSig iid (n - 1)]
+  (p, if String.eqb p b then XConcat [XSig iid iw; XSig id w]
+      else if String.eqb p a then XConcat [XSig id w; XSig iid iw]
       else XSig id w).
 
 Definition unit_dev : name := "unit".
 
-Definition series_module (u : unit) (a b : name) (n : Z) (iname uname : name) : module :=
+(* the stack module with an internal bus of width iw *)
+Definition series_module_gen (u : unit) (a b : name) (iw n : Z) (iname uname : name) : module :=
   let io := unit_io u in
   let iid := N.of_nat (List.length io) in
-  {| m_name := ""; m_ports := io; m_sigs := [(iname, n - 1)];
+  {| m_name := ""; m_ports := io; m_sigs := [(iname, iw)];
      m_insts := [ {| i_name := uname; i_n := n; i_of := TDev unit_dev io;
-                     i_conns := map (series_conn iid n a b) (number io 0%N) |} ];
-     m_leaves := leaves_of (io ++ [(iname, n - 1)]) |}.
+                     i_conns := map (series_conn iid iw a b) (number io 0%N) |} ];
+     m_leaves := leaves_of (io ++ [(iname, iw)]) |}.
+
+(* generators.py (fixes/C19W-1): `width = (params.nser - 1) * series_conns[0].width` - one private net per bit of the
+   series ports between each pair of neighbouring units; w = the width of the FIRST series port.  (When the second
+   series port has another width the generator still returns this module; Concat(i, second) then has width
+   (n-1)*w + w', neither w' nor n*w', and elaboration refuses it in the array flattener: Props/C19W.v.) *)
+Definition series_module (u : unit) (a b : name) (w n : Z) (iname uname : name) : module :=
+  series_module_gen u a b ((n - 1) * w) n iname uname.
+
+(* the PINNED generators.py: `h.Signal(width=params.nser - 1)` whatever the width of the series ports
+   (= series_module at w = 1); for series ports wider than one bit elaboration refuses it: Props/C19W.v *)
+Definition series_module_pinned (u : unit) (a b : name) (n : Z) (iname uname : name) : module :=
+  series_module_gen u a b (n - 1) n iname uname.
 
 (* Wrapper: clones of io(m), one instance (`inner`, or the first unused inner_, inner__, ...) connected port by port *)
 Definition wrapper_module (u : unit) (iname : name) : module :=
@@ -81,10 +94,20 @@ Definition series_gen (u : unit) (a b : name) (n : Z) : result module :=
   if n <? 1 then Error EOther
   else if n =? 1 then wrapper_gen u
   else
+    w <- series_port u a ;; _ <- series_port u b ;;
+    iname <- unused_name (name_fuel (unit_names u)) (unit_names u) "i" ;;
+    uname <- unused_name (name_fuel (iname :: unit_names u)) (iname :: unit_names u) "units" ;;
+    Ok (series_module u a b w n iname uname).
+
+(* the pinned tree's Series (after fixes/C19-1..4, before fixes/C19W-1) *)
+Definition series_gen_pinned (u : unit) (a b : name) (n : Z) : result module :=
+  if n <? 1 then Error EOther
+  else if n =? 1 then wrapper_gen u
+  else
     _ <- series_port u a ;; _ <- series_port u b ;;
     iname <- unused_name (name_fuel (unit_names u)) (unit_names u) "i" ;;
     uname <- unused_name (name_fuel (iname :: unit_names u)) (iname :: unit_names u) "units" ;;
-    Ok (series_module u a b n iname uname).
+    Ok (series_module_pinned u a b n iname uname).
 
 (* MosStack(unit, nser) = Series(unit, nser, conns=("d","s")) *)
 Definition mosstack_gen (u : unit) (n : Z) : result module := series_gen u "d" "s" n.
